@@ -56,6 +56,7 @@ class Engine:
         self.current_fn = None
         self.max_paths = 4000
         self.guard_frames = []
+        self._summ = []
         self.bound_vars = set()
 
     # ------------------------------------------------------------------ exploration
@@ -128,6 +129,7 @@ class Engine:
         self.loop_counts = {}
         self.guard_frames = []
         self._spec = 0
+        self._summ = []
 
     def tick(self):
         self._tick += 1
@@ -190,12 +192,55 @@ class Engine:
         r = self.solver.check(cond)
         return r != z3.unsat
 
+    def summarize(self, fn, cap=64):
+        """evaluate a PURE expression by enumerating its own branches (no global forking):
+        returns (merged value or None, [(path condition, exception)])"""
+        fr = {"work": [[]], "prefix": [], "decisions": [], "conds": []}
+        self._summ.append(fr)
+        vals, excs = [], []
+        n = 0
+        saved_spec = self._spec
+        self._spec = 0
+        try:
+            while fr["work"]:
+                n += 1
+                if n > cap:
+                    raise Undecided("pure sub-expression has too many branches to summarise")
+                fr["prefix"] = fr["work"].pop()
+                fr["decisions"] = []
+                fr["conds"] = []
+                try:
+                    v = fn()
+                    vals.append((z3.And(fr["conds"]) if fr["conds"] else z3.BoolVal(True), v))
+                except Exception as e:
+                    excs.append((z3.And(fr["conds"]) if fr["conds"] else z3.BoolVal(True), e))
+        finally:
+            self._summ.pop()
+            self._spec = saved_spec
+        if not vals:
+            return None, excs
+        r = vals[-1][1]
+        for c, v in reversed(vals[:-1]):
+            r = ite(SV(c), v, r)
+        return r, excs
+
     def branch(self, cond):
         cond = z3.simplify(cond)
         if z3.is_true(cond):
             return True
         if z3.is_false(cond):
             return False
+        if self._summ and not self._spec:
+            fr = self._summ[-1]
+            idx = len(fr["decisions"])
+            if idx < len(fr["prefix"]):
+                d = fr["prefix"][idx]
+            else:
+                d = True
+                fr["work"].append(fr["decisions"] + [False])
+            fr["decisions"].append(d)
+            fr["conds"].append(cond if d else z3.Not(cond))
+            return d
         if self._spec:
             raise Undecided("symbolic truth value inside a specification (use And/Or/Implies/ite)")
         self.stats["branches"] += 1
